@@ -401,9 +401,11 @@ class Reader:
             if base in ["d", "o", "x", "X"]:
                 return format(index, base).zfill(width)
 
-            # base can only be n or N here
+            # base can only be n or N here.  The width counts the label
+            # separators too and, as for the other bases, is a minimum.
             hexa = _format_index(index, "x", width)
-            nibbles = ".".join(hexa[::-1])[:width]
+            natural = 2 * len(format(index, "x")) - 1
+            nibbles = ".".join(hexa[::-1])[: max(width, natural)]
             if base == "N":
                 nibbles = nibbles.upper()
             return nibbles
